@@ -131,3 +131,564 @@ Section Sem.
     eapply collect_perm; [|exact H]. apply Permutation_flat_map. apply bylevel_perm.
   Qed.
 End Sem.
+
+(* ================================================================== the syntactic round trip of effect lists *)
+Local Open Scope string_scope.
+
+Lemma effkw_parts h : is_eff_kw h = false ->
+  (h =? "and") = false /\ (h =? "when") = false /\ (h =? "not") = false /\ (h =? "assign") = false
+  /\ (h =? "increase") = false /\ (h =? "decrease") = false /\ (h =? "forall") = false.
+Proof. unfold is_eff_kw. intro H. repeat (apply orb_false_iff in H; destruct H as [H ?]). repeat split; assumption. Qed.
+
+Lemma ssize_pos s : (1 <= ssize s)%nat.
+Proof. destruct s; cbn [ssize]; lia. Qed.
+
+Section EffRoundTrip.
+  Variable simp : expr -> expr.
+  Variable isb : N -> bool.
+  Variable nm : naming.
+  Variable E : env.
+  Hypothesis H_fl : forall f, PddlExpr.e_fl E (nm_fl nm f) = Some f.
+  Hypothesis H_flkw : forall f, is_kw (nm_fl nm f) = false.
+  Hypothesis H_obj : forall o, e_obj E (nm_obj nm o) = Some o.
+  Hypothesis H_obj_fl : forall o, PddlExpr.e_fl E (nm_obj nm o) = None.
+  Hypothesis H_obj_q : forall o, starts_q (nm_obj nm o) = false.
+  Hypothesis H_par : forall p, e_par E (nm_par nm p) = Some p.
+  Hypothesis H_var : forall v, e_var E (nm_var nm v) = Some v.
+  Hypothesis H_par_var : forall p v, nm_par nm p <> nm_var nm v.
+  Hypothesis H_ty : forall t, e_ty E (nm_ty nm t) = Some t.
+  Hypothesis H_ty_q : forall t, starts_q (nm_ty nm t) = false.
+  Hypothesis H_num : forall s q, parse_number s = Some q -> PddlExpr.e_fl E s = None /\ e_obj E s = None.
+  Hypothesis H_effkw : forall f, is_eff_kw (nm_fl nm f) = false.       (* no fluent is named like an effect keyword *)
+  (* the token "#t" (continuous change) does not occur in a printed expression *)
+  Hypothesis no_hash : forall x s, print nm x = Some s -> contains_tok "#t" s = false.
+
+  Notation PQ := (parse_q simp E isb).
+  Definition RTX := roundtrip_sc nm E H_fl H_flkw H_obj H_obj_fl H_obj_q H_par H_var H_par_var H_ty H_ty_q H_num.
+
+  (* the printed form of an expression of the fragment (any default outside it) *)
+  Definition psx (x : expr) : sexp := match print nm x with Some s => s | None => Atom "" end.
+
+  Lemma psx_ok sc x : pddl_ok sc x = true ->
+    print nm x = Some (psx x) /\ parse E (scope_names nm sc) (psx x) = Some (norm x).
+  Proof. intro H. destruct (RTX x sc H) as (s & P1 & P2). unfold psx. rewrite P1. auto. Qed.
+
+  Definition OKE (e : effect) : Prop := pddl_eff_ok simp isb e = true.
+
+  Lemma sfix_eq x : sfix simp x = true -> simp x = x.
+  Proof. unfold sfix. intro H. apply expr_eqb_eq in H. exact H. Qed.
+
+  Lemma oke_all e : OKE e ->
+    simp (e_cond e) = e_cond e /\ simp (norm (e_cond e)) = norm (e_cond e) /\ simp (e_val e) = e_val e
+    /\ simp (target e) = target e /\ e_isbool e = isb (Problem.e_fl e)
+    /\ (if e_isbool e then (is_true (e_val e) || is_false (e_val e)) && match e_kind e with KAssign => true | _ => false end
+        else negb (is_true (e_val e)) && negb (is_false (e_val e)) && pddl_ok (e_vars e) (e_val e)) = true
+    /\ (is_true (e_cond e) || is_false (e_cond e) || (pddl_ok (e_vars e) (e_cond e) && negb (is_false (norm (e_cond e))))) = true
+    /\ pddl_ok (e_vars e) (target e) = true
+    /\ nodupN (map fst (e_vars e)) = true
+    /\ forallb (fun v => memN v (map fst (e_vars e))) (eff_fv e) = true
+    /\ forallb (fun p => memN (fst p) (eff_fv e)) (e_vars e) = true.
+  Proof.
+    unfold OKE, pddl_eff_ok. intro H. repeat (apply andb_true_iff in H; destruct H as [H ?]).
+    repeat match goal with H : sfix simp _ = true |- _ => apply sfix_eq in H end.
+    match goal with H : Bool.eqb _ _ = true |- _ => apply Bool.eqb_prop in H end.
+    repeat split; assumption.
+  Qed.
+
+  Lemma filter_all {A} (p : A -> bool) l : forallb p l = true -> filter p l = l.
+  Proof.
+    induction l as [|x l IH]; cbn [forallb filter]; [reflexivity|]. intro H. apply andb_true_iff in H as [H1 H2].
+    rewrite H1, (IH H2). reflexivity.
+  Qed.
+
+  (* add_effect on the re-read target, value and condition builds the normalised effect *)
+  Lemma mk_effect_ok e : OKE e ->
+    mk_effect E isb (norm (target e)) (norm (e_val e)) (norm (e_cond e)) (e_kind e) (scope_names nm (e_vars e))
+    = Some (norm_eff e).
+  Proof.
+    intro H. destruct (oke_all e H) as (_ & _ & _ & _ & Hb & _ & _ & _ & _ & Hfv & Huse).
+    unfold mk_effect. cbn [target norm]. rewrite (seq_scope nm E H_var). fold (target e).
+    change (free_vars (EFluent (Problem.e_fl e) (map norm (e_args e)))) with (free_vars (norm (target e))).
+    fold (eff_fv e). rewrite Hfv, (filter_all _ _ Huse), <- Hb. reflexivity.
+  Qed.
+
+  (* ---- unfolding equations of the work-list loop ---- *)
+  Definition ADD (t v : option expr) (c : expr) (k : ekind) (vars : list (string * N)) f q acc :=
+    match t, v with
+    | Some t', Some v' => match mk_effect E isb t' v' c k vars with Some e => PQ f q (e :: acc) | None => None end
+    | _, _ => None
+    end.
+
+  Lemma step_and rest c vars f q acc :
+    PQ (S f) ((SList (Atom "and" :: rest), c, vars) :: q) acc = PQ f (q ++ map (fun y => (y, c, vars)) rest) acc.
+  Proof. reflexivity. Qed.
+  Lemma step_when cs body r c vars f q acc :
+    PQ (S f) ((SList (Atom "when" :: cs :: body :: r), c, vars) :: q) acc =
+    match parse E vars cs with
+    | Some c' => if is_false (simp c') then PQ f q acc else PQ f (q ++ [(body, simp c', vars)]) acc
+    | None => None end.
+  Proof. reflexivity. Qed.
+  Lemma step_not y r c vars f q acc :
+    PQ (S f) ((SList (Atom "not" :: y :: r), c, vars) :: q) acc = ADD (parse E vars y) (Some (EBool false)) c KAssign vars f q acc.
+  Proof. reflexivity. Qed.
+  Lemma step_assign y v r c vars f q acc :
+    PQ (S f) ((SList (Atom "assign" :: y :: v :: r), c, vars) :: q) acc =
+    ADD (parse E vars y) (parse E vars v) c KAssign vars f q acc.
+  Proof. reflexivity. Qed.
+  Lemma step_inc y v r c vars f q acc :
+    PQ (S f) ((SList (Atom "increase" :: y :: v :: r), c, vars) :: q) acc =
+    if contains_tok "#t" (SList (Atom "increase" :: y :: v :: r)) then None
+    else ADD (parse E vars y) (parse E vars v) c KInc vars f q acc.
+  Proof. reflexivity. Qed.
+  Lemma step_dec y v r c vars f q acc :
+    PQ (S f) ((SList (Atom "decrease" :: y :: v :: r), c, vars) :: q) acc =
+    if contains_tok "#t" (SList (Atom "decrease" :: y :: v :: r)) then None
+    else ADD (parse E vars y) (parse E vars v) c KDec vars f q acc.
+  Proof. reflexivity. Qed.
+  Lemma step_forall vl body r c f q acc :
+    PQ (S f) ((SList (Atom "forall" :: SList vl :: body :: r), c, []) :: q) acc =
+    if forallb is_atom vl then
+      match parse_vars E [] vl with
+      | Some nv => if nodup_s (map fst nv) then PQ f (q ++ [(body, c, nv)]) acc else None
+      | None => None end
+    else None.
+  Proof. reflexivity. Qed.
+  Lemma step_lit fn ss c vars f q acc : is_eff_kw fn = false ->
+    PQ (S f) ((SList (Atom fn :: ss), c, vars) :: q) acc =
+    ADD (parse E vars (SList (Atom fn :: ss))) (Some (EBool true)) c KAssign vars f q acc.
+  Proof.
+    intro H. destruct (effkw_parts _ H) as (A1 & A2 & A3 & A4 & A5 & A6 & A7). cbn [parse_q].
+    rewrite A1, A2, A3, A4, A5, A6, A7. reflexivity.
+  Qed.
+
+  (* ---- the printed pieces of one effect ---- *)
+  Definition fl_s (e : effect) : sexp := psx (target e).
+  Definition leaf_s (e : effect) : sexp :=
+    if is_true (e_val e) then fl_s e
+    else if is_false (e_val e) then SList [Atom "not"; fl_s e]
+    else SList [Atom (kind_kw (e_kind e)); fl_s e; psx (e_val e)].
+  Definition sc_of (e : effect) : list (string * N) := scope_names nm (e_vars e).
+
+  Lemma fl_shape e : OKE e ->
+    print nm (target e) = Some (fl_s e) /\ parse E (sc_of e) (fl_s e) = Some (norm (target e))
+    /\ exists ss, fl_s e = SList (Atom (nm_fl nm (Problem.e_fl e)) :: ss).
+  Proof.
+    intro H. destruct (oke_all e H) as (_ & _ & _ & _ & _ & _ & _ & Ht & _).
+    destruct (psx_ok _ _ Ht) as [P1 P2]. fold (fl_s e) in P1, P2. split; [exact P1|]. split; [exact P2|].
+    unfold target in P1. cbn [print] in P1. destruct (sequence (map (print nm) (e_args e))) as [ss|]; [|discriminate].
+    exists ss. congruence.
+  Qed.
+
+  Lemma leaf_step e : OKE e -> forall f q acc,
+    PQ (S f) ((leaf_s e, norm (e_cond e), sc_of e) :: q) acc = PQ f q (norm_eff e :: acc).
+  Proof.
+    intros H f q acc. pose proof (mk_effect_ok e H) as M. fold (sc_of e) in M.
+    destruct (fl_shape e H) as (P1 & P2 & ss & Hs).
+    destruct (oke_all e H) as (_ & _ & _ & _ & _ & Hv & _).
+    unfold leaf_s. destruct (e_isbool e).
+    - apply andb_true_iff in Hv as [Hv Hk]. destruct (e_kind e); try discriminate Hk.
+      destruct (is_true (e_val e)) eqn:Ht.
+      + apply is_true_eq in Ht. rewrite Ht in M. cbn [norm] in M.
+        rewrite Hs in *. rewrite step_lit by apply H_effkw. rewrite P2. unfold ADD. rewrite M. reflexivity.
+      + cbn [orb] in Hv. rewrite Hv. apply is_false_eq in Hv. rewrite Hv in M. cbn [norm] in M.
+        rewrite step_not, P2. unfold ADD. rewrite M. reflexivity.
+    - apply andb_true_iff in Hv as [Hv Hp]. apply andb_true_iff in Hv as [Hv1 Hv2].
+      apply negb_true_iff in Hv1. apply negb_true_iff in Hv2. rewrite Hv1, Hv2.
+      destruct (psx_ok _ _ Hp) as [V1 V2]. fold (sc_of e) in V2.
+      assert (contains_tok "#t" (SList [Atom (kind_kw (e_kind e)); fl_s e; psx (e_val e)]) = false) as NH.
+      { cbn [contains_tok existsb]. rewrite (no_hash _ _ P1), (no_hash _ _ V1). destruct (e_kind e); reflexivity. }
+      destruct (e_kind e); cbn [kind_kw] in *.
+      + rewrite step_assign, P2, V2. unfold ADD. rewrite M. reflexivity.
+      + rewrite step_inc, NH, P2, V2. unfold ADD. rewrite M. reflexivity.
+      + rewrite step_dec, NH, P2, V2. unfold ADD. rewrite M. reflexivity.
+  Qed.
+
+  (* ---- one round of the work list ---- *)
+  Definition StepOK (it : qitem) (o : effect + qitem) : Prop :=
+    forall f q acc, PQ (S f) (it :: q) acc =
+                    match o with inl x => PQ f q (x :: acc) | inr ch => PQ f (q ++ [ch]) acc end.
+  Definition leafs (out : effect -> effect + qitem) (l : list effect) : list effect :=
+    flat_map (fun e => match out e with inl x => [x] | inr _ => [] end) l.
+  Definition childs (out : effect -> effect + qitem) (l : list effect) : list qitem :=
+    flat_map (fun e => match out e with inl _ => [] | inr c => [c] end) l.
+
+  Lemma level (ent : effect -> qitem) out l : (forall e, In e l -> StepOK (ent e) (out e)) ->
+    forall f q2 acc, PQ (List.length l + f) (map ent l ++ q2) acc = PQ f (q2 ++ childs out l) (rev (leafs out l) ++ acc).
+  Proof.
+    induction l as [|a l IH]; intros Hs f q2 acc.
+    - cbn. rewrite app_nil_r. reflexivity.
+    - cbn [List.length map app plus]. rewrite (Hs a (or_introl eq_refl)).
+      assert (forall e, In e l -> StepOK (ent e) (out e)) as Hs' by (intros; apply Hs; right; assumption).
+      unfold leafs, childs. cbn [flat_map]. fold (leafs out l) (childs out l). destruct (out a) as [x|ch].
+      + rewrite (IH Hs'). cbn [app rev]. rewrite <- app_assoc. reflexivity.
+      + rewrite <- app_assoc. rewrite (IH Hs'). cbn [app]. rewrite <- app_assoc. reflexivity.
+  Qed.
+
+  Lemma leafs_if (p : effect -> bool) g h l :
+    leafs (fun e => if p e then inl (g e) else inr (h e)) l = map g (filter p l)
+    /\ childs (fun e => if p e then inl (g e) else inr (h e)) l = map h (filter (fun e => negb (p e)) l).
+  Proof.
+    unfold leafs, childs. induction l as [|e l [IH1 IH2]]; [split; reflexivity|]. cbn [flat_map filter].
+    rewrite IH1, IH2. destruct (p e); split; reflexivity.
+  Qed.
+
+  (* ---- the trajectory of one effect through the rounds ---- *)
+  Definition TT : expr := EBool true.
+  Definition when_s (e : effect) : sexp := SList [Atom "when"; psx (e_cond e); leaf_s e].
+  Definition body_s (e : effect) : sexp := if is_true (e_cond e) then leaf_s e else when_s e.
+  Definition item0 (e : effect) : sexp := wrap_forall nm (e_vars e) (body_s e).
+  Definition ent0 (e : effect) : qitem := (item0 e, TT, []).
+  Definition child1 (e : effect) : qitem :=
+    match e_vars e with [] => (leaf_s e, norm (e_cond e), []) | _ => (body_s e, TT, sc_of e) end.
+  Definition child2 (e : effect) : qitem := (leaf_s e, norm (e_cond e), sc_of e).
+  Definition out0 (e : effect) : effect + qitem := if Nat.eqb (depth e) 0 then inl (norm_eff e) else inr (child1 e).
+  Definition out1 (e : effect) : effect + qitem := if Nat.eqb (depth e) 1 then inl (norm_eff e) else inr (child2 e).
+
+  Definition LIVE (e : effect) : Prop := OKE e /\ is_false (e_cond e) = false.
+
+  Lemma cond_parse e : LIVE e -> is_true (e_cond e) = false ->
+    print nm (e_cond e) = Some (psx (e_cond e)) /\ parse E (sc_of e) (psx (e_cond e)) = Some (norm (e_cond e))
+    /\ simp (norm (e_cond e)) = norm (e_cond e) /\ is_false (norm (e_cond e)) = false.
+  Proof.
+    intros [H Hf] Ht. destruct (oke_all e H) as (_ & Hs & _ & _ & _ & _ & Hc & _). rewrite Ht, Hf in Hc. cbn [orb] in Hc.
+    apply andb_true_iff in Hc as [Hc1 Hc2]. apply negb_true_iff in Hc2. destruct (psx_ok _ _ Hc1) as [P1 P2]. auto.
+  Qed.
+
+  Lemma when_step e vars : LIVE e -> is_true (e_cond e) = false -> vars = sc_of e -> forall c0,
+    StepOK (when_s e, c0, vars) (inr (leaf_s e, norm (e_cond e), vars)).
+  Proof.
+    intros HL Ht -> c0 f q acc. destruct (cond_parse e HL Ht) as (_ & P2 & P3 & P4). unfold when_s.
+    rewrite step_when, P2, P3, P4. reflexivity.
+  Qed.
+
+  Lemma step0 e : LIVE e -> StepOK (ent0 e) (out0 e).
+  Proof.
+    intros HL. pose proof HL as [H Hf]. unfold ent0, out0, item0, child1, depth, body_s.
+    destruct (oke_all e H) as (_ & _ & _ & _ & _ & _ & _ & _ & Hnd & _).
+    destruct (e_vars e) as [|p vs] eqn:Hv; cbn [wrap_forall].
+    - destruct (is_true (e_cond e)) eqn:Ht; cbn [plus Nat.eqb].
+      + intros f q acc. pose proof (leaf_step e H f q acc) as L. unfold sc_of in L. rewrite Hv in L. cbn [scope_names map] in L.
+        apply is_true_eq in Ht. rewrite Ht in L. cbn [norm] in L. exact L.
+      + apply (when_step e [] HL Ht). unfold sc_of. rewrite Hv. reflexivity.
+    - replace (Nat.eqb ((if is_true (e_cond e) then 0 else 1) + 1) 0) with false by (destruct (is_true (e_cond e)); reflexivity).
+      intros f q acc. rewrite step_forall, print_vars_atoms, (parse_print_vars nm E H_ty H_ty_q).
+      rewrite (nodup_scope nm E H_var), Hnd. unfold sc_of. rewrite Hv. reflexivity.
+  Qed.
+
+  Lemma step1 e : LIVE e -> Nat.eqb (depth e) 0 = false -> StepOK (child1 e) (out1 e).
+  Proof.
+    intros HL. pose proof HL as [H Hf]. unfold child1, out1, child2, depth, body_s.
+    destruct (e_vars e) as [|p vs] eqn:Hv.
+    - destruct (is_true (e_cond e)) eqn:Ht; cbn [plus Nat.eqb]; [discriminate|]. intros _ f q acc.
+      pose proof (leaf_step e H f q acc) as L. unfold sc_of in *. rewrite Hv in *. exact L.
+    - intros _. destruct (is_true (e_cond e)) eqn:Ht; cbn [plus Nat.eqb].
+      + intros f q acc. pose proof (leaf_step e H f q acc) as L. apply is_true_eq in Ht. rewrite Ht in L. cbn [norm] in L. exact L.
+      + apply (when_step e (sc_of e) HL Ht eq_refl).
+  Qed.
+
+  Lemma step2 e : LIVE e -> StepOK (child2 e) (inl (norm_eff e)).
+  Proof. intros [H _] f q acc. apply leaf_step. exact H. Qed.
+
+  (* ---- what the writer prints for an effect of the fragment ---- *)
+  Lemma print_item rw e : OKE e ->
+    print_effect simp nm rw e = Some (if is_false (e_cond e) then [] else [item0 e]).
+  Proof.
+    intro H. destruct (oke_all e H) as (S1 & _ & S3 & S4 & _ & Hv & _).
+    destruct (fl_shape e H) as (P1 & _ & _).
+    unfold print_effect, convert. rewrite S1, S3, S4, P1.
+    assert (e_isbool e && negb (is_true (e_val e)) && negb (is_false (e_val e)) = false) as NC.
+    { destruct (e_isbool e); [|reflexivity]. apply andb_true_iff in Hv as [Hv _].
+      destruct (is_true (e_val e)); [reflexivity|]. cbn [orb] in Hv. rewrite Hv. reflexivity. }
+    rewrite NC. destruct (is_false (e_cond e)) eqn:Hf; [reflexivity|].
+    unfold item0, body_s, when_s, leaf_s.
+    assert ((if is_true (e_val e) then Some (fl_s e)
+             else if is_false (e_val e) then Some (SList [Atom "not"; fl_s e])
+             else option_map (fun v => SList [Atom (kind_kw (e_kind e)); fl_s e; v]) (print nm (simp (e_val e))))
+            = Some (if is_true (e_val e) then fl_s e else if is_false (e_val e) then SList [Atom "not"; fl_s e]
+                    else SList [Atom (kind_kw (e_kind e)); fl_s e; psx (e_val e)])) as LF.
+    { destruct (is_true (e_val e)) eqn:T1; [reflexivity|]. destruct (is_false (e_val e)) eqn:T2; [reflexivity|].
+      destruct (e_isbool e).
+      - apply andb_true_iff in Hv as [Hv _]. cbn in Hv. discriminate Hv.
+      - apply andb_true_iff in Hv as [_ Hp]. destruct (psx_ok _ _ Hp) as [V1 _]. rewrite S3, V1. reflexivity. }
+    destruct (is_true (e_cond e)) eqn:Ht.
+    - rewrite LF. reflexivity.
+    - destruct (cond_parse e (conj H Hf) Ht) as (C1 & _). rewrite C1. cbn [option_map]. rewrite LF. reflexivity.
+  Qed.
+
+  Lemma print_all rw effs : Forall OKE effs ->
+    print_effects simp nm rw effs =
+    Some (SList (Atom "and" :: map item0 (filter (fun e => negb (is_false (e_cond e))) effs))).
+  Proof.
+    intro F. unfold print_effects.
+    assert (sequence (map (print_effect simp nm rw) effs)
+            = Some (map (fun e => if is_false (e_cond e) then [] else [item0 e]) effs)) as Q.
+    { induction F as [|e l He Hl IH]; [reflexivity|]. cbn [map sequence]. rewrite (print_item rw e He), IH. reflexivity. }
+    rewrite Q. do 3 f_equal. clear. induction effs as [|e l IH]; [reflexivity|]. cbn [map List.concat filter].
+    rewrite IH. destruct (is_false (e_cond e)); reflexivity.
+  Qed.
+
+  (* ---- bookkeeping of the three levels ---- *)
+  Notation nd0 := (fun e : effect => negb (Nat.eqb (depth e) 0)).
+  Notation nd1 := (fun e : effect => negb (Nat.eqb (depth e) 1)).
+
+  Lemma filter_d1 l : filter (fun e => Nat.eqb (depth e) 1) (filter nd0 l) = filter (fun e => Nat.eqb (depth e) 1) l.
+  Proof.
+    induction l as [|e l IH]; [reflexivity|]. cbn [filter].
+    destruct (depth_le2 e) as [D|[D|D]]; rewrite D; cbn [Nat.eqb negb filter]; rewrite ?D; cbn [Nat.eqb]; rewrite IH; reflexivity.
+  Qed.
+  Lemma filter_d2 l : filter nd1 (filter nd0 l) = filter (fun e => Nat.eqb (depth e) 2) l.
+  Proof.
+    induction l as [|e l IH]; [reflexivity|]. cbn [filter].
+    destruct (depth_le2 e) as [D|[D|D]]; rewrite D; cbn [Nat.eqb negb filter]; rewrite ?D; cbn [Nat.eqb negb]; rewrite IH; reflexivity.
+  Qed.
+
+  Definition wgt (e : effect) : nat :=
+    (1 + (if Nat.eqb (depth e) 0 then 0 else 1 + (if Nat.eqb (depth e) 1 then 0 else 1)))%nat.
+
+  Lemma count_levels l :
+    (List.length l + (List.length (filter nd0 l) + List.length (filter nd1 (filter nd0 l))))%nat
+    = fold_right (fun e n => (wgt e + n)%nat) 0%nat l.
+  Proof.
+    induction l as [|e l IH]; [reflexivity|]. cbn [filter fold_right List.length]. unfold wgt at 1.
+    destruct (Nat.eqb (depth e) 0); cbn [negb filter List.length].
+    - lia.
+    - destruct (Nat.eqb (depth e) 1); cbn [negb List.length]; lia.
+  Qed.
+
+  Lemma item_weight e : (wgt e <= ssize (item0 e))%nat.
+  Proof.
+    unfold wgt, item0, depth, body_s, when_s. pose proof (ssize_pos (leaf_s e)) as L.
+    destruct (e_vars e) as [|p vs]; cbn [wrap_forall].
+    - destruct (is_true (e_cond e)); cbn [plus Nat.eqb ssize fold_right]; lia.
+    - assert (forall b : sexp, (3 <= ssize (SList [Atom "forall"; SList (print_vars nm (p :: vs)); b]))%nat) as B.
+      { intro b. cbn [ssize fold_right]. pose proof (ssize_pos b). lia. }
+      specialize (B (if is_true (e_cond e) then leaf_s e else SList [Atom "when"; psx (e_cond e); leaf_s e])).
+      destruct (Nat.eqb ((if is_true (e_cond e) then 0 else 1) + 1) 0); [lia|].
+      destruct (Nat.eqb ((if is_true (e_cond e) then 0 else 1) + 1) 1); lia.
+  Qed.
+
+  Lemma items_weight l : (fold_right (fun e n => (wgt e + n)%nat) 0%nat l
+                          <= fold_right (fun x n => (ssize x + n)%nat) 0%nat (map item0 l))%nat.
+  Proof. induction l as [|e l IH]; [reflexivity|]. cbn [map fold_right]. pose proof (item_weight e). lia. Qed.
+
+  Theorem effects_roundtrip rw effs : Forall OKE effs ->
+    exists s, print_effects simp nm rw effs = Some s /\ parse_effects simp E isb s = Some (norm_effs effs).
+  Proof.
+    intro F. rewrite (print_all rw effs F). eexists; split; [reflexivity|].
+    set (K := filter (fun e => negb (is_false (e_cond e))) effs).
+    assert (forall e, In e K -> LIVE e) as HK.
+    { intros e He. apply filter_In in He as [He1 He2]. split; [rewrite Forall_forall in F; apply F; exact He1|].
+      apply negb_true_iff in He2. exact He2. }
+    set (L1 := filter nd0 K). set (L2 := filter nd1 L1).
+    assert (exists r, ssize (SList (Atom "and" :: map item0 K))
+                      = (List.length K + (List.length L1 + (List.length L2 + r)))%nat) as [r Hr].
+    { pose proof (count_levels K) as C. pose proof (items_weight K) as W. fold L1 in C. fold L2 in C.
+      cbn [ssize fold_right].
+      exists (S (1 + fold_right (fun x n => (ssize x + n)%nat) 0%nat (map item0 K))
+              - (List.length K + (List.length L1 + List.length L2)))%nat. lia. }
+    unfold parse_effects. rewrite step_and, Hr. cbn [app]. rewrite map_map. fold TT.
+    change (map (fun x => (item0 x, TT, @nil (string * N))) K) with (map ent0 K).
+    rewrite <- (app_nil_r (map ent0 K)).
+    rewrite (level ent0 out0 K) by (intros e He; apply step0, HK, He).
+    destruct (leafs_if (fun e => Nat.eqb (depth e) 0) norm_eff child1 K) as [A1 A2].
+    change (fun e => if Nat.eqb (depth e) 0 then inl (norm_eff e) else inr (child1 e)) with out0 in A1, A2.
+    rewrite A1, A2. fold L1. cbn [app]. rewrite <- (app_nil_r (map child1 L1)).
+    rewrite (level child1 out1 L1).
+    2:{ intros e He. apply filter_In in He as [He1 He2]. apply negb_true_iff in He2. apply step1; [apply HK, He1|exact He2]. }
+    destruct (leafs_if (fun e => Nat.eqb (depth e) 1) norm_eff child2 L1) as [B1 B2].
+    change (fun e => if Nat.eqb (depth e) 1 then inl (norm_eff e) else inr (child2 e)) with out1 in B1, B2.
+    rewrite B1, B2. fold L2. cbn [app]. rewrite <- (app_nil_r (map child2 L2)).
+    rewrite (level child2 (fun e => inl (norm_eff e)) L2).
+    2:{ intros e He. apply filter_In in He as [He1 _]. apply filter_In in He1 as [He1 _]. apply step2, HK, He1. }
+    assert (childs (fun e : effect => inl (norm_eff e)) L2 = [] /\ leafs (fun e : effect => inl (norm_eff e)) L2 = map norm_eff L2)
+      as [C1 C2].
+    { unfold childs, leafs. clear. induction L2 as [|e l [I1 I2]]; [split; reflexivity|]. cbn [flat_map map]. rewrite I1, I2.
+      split; reflexivity. }
+    rewrite C1, C2. cbn [app]. destruct r; cbn [parse_q]; f_equal;
+      rewrite !app_nil_r, !rev_app_distr, !rev_involutive; unfold norm_effs, bylevel; fold K;
+      rewrite !map_app; unfold L2, L1; rewrite filter_d1, filter_d2; rewrite <- app_assoc; reflexivity.
+  Qed.
+End EffRoundTrip.
+
+(* ================================================================== "#t" never occurs in a printed expression *)
+Section NoHash.
+  Variable nm : naming.
+  Hypothesis X_fl : forall f, (nm_fl nm f =? "#t") = false.      (* no fluent, object or type is called "#t" *)
+  Hypothesis X_obj : forall o, (nm_obj nm o =? "#t") = false.
+  Hypothesis X_ty : forall t, (nm_ty nm t =? "#t") = false.
+
+  Definition NH (s : sexp) : Prop := contains_tok "#t" s = false.
+
+  Lemma num_not_hash t q : parse_number t = Some q -> (t =? "#t") = false.
+  Proof. intro H. destruct (String.eqb_spec t "#t") as [->|]; [vm_compute in H; discriminate H|reflexivity]. Qed.
+
+  Lemma nh_list l : Forall (fun e => forall s, print nm e = Some s -> NH s) l ->
+    forall ss, sequence (map (print nm) l) = Some ss -> existsb (contains_tok "#t") ss = false.
+  Proof.
+    induction 1 as [|x l Hx Hl IH]; intros ss Hs; cbn [map sequence] in Hs.
+    - inversion Hs. reflexivity.
+    - destruct (print nm x) as [s|]; [|discriminate]. destruct (sequence (map (print nm) l)) as [ss'|]; [|discriminate].
+      inversion Hs. cbn [existsb]. rewrite (Hx s eq_refl), (IH ss' eq_refl). reflexivity.
+  Qed.
+
+  Lemma nh_vars vs : existsb (contains_tok "#t") (print_vars nm vs) = false.
+  Proof.
+    induction vs as [|[v t] vs IH]; [reflexivity|]. cbn [print_vars flat_map app fst snd existsb contains_tok].
+    fold (print_vars nm vs). rewrite X_ty, IH. reflexivity.
+  Qed.
+
+  Lemma nh_chain op : (op =? "#t") = false -> forall r a, NH a -> existsb (contains_tok "#t") r = false ->
+    NH (fold_left (fun x y => SList [Atom op; y; x]) r a).
+  Proof.
+    intro Hop. induction r as [|y r IH]; intros a Ha Hr; [exact Ha|]. cbn [existsb] in Hr.
+    apply orb_false_iff in Hr as [Hy Hr]. cbn [fold_left]. apply IH; [|exact Hr]. unfold NH.
+    cbn [contains_tok existsb]. rewrite Hop, Hy, Ha. reflexivity.
+  Qed.
+
+  Lemma print_no_hash : forall e s, print nm e = Some s -> NH s.
+  Proof.
+    unfold NH.
+    induction e using expr_ind'; intros s Hp; cbn [print] in Hp; try discriminate Hp;
+      try (destruct (print nm e) as [x|]; [|discriminate Hp]; inversion Hp; cbn; rewrite ?nh_vars, (IHe x eq_refl); reflexivity);
+      try (destruct (print nm e1) as [x|]; [|discriminate Hp]; destruct (print nm e2) as [y|]; [|discriminate Hp];
+           inversion Hp; cbn; rewrite (IHe1 x eq_refl), (IHe2 y eq_refl); reflexivity).
+    - inversion Hp. cbn [contains_tok]. eapply num_not_hash, parse_number_show_Z.
+    - destruct (show_real q) as [t|] eqn:Hq; [|discriminate]. inversion Hp. cbn [contains_tok].
+      eapply num_not_hash, parse_number_show_real, Hq.
+    - inversion Hp. cbn [contains_tok]. apply X_obj.
+    - inversion Hp. reflexivity.
+    - inversion Hp. reflexivity.
+    - destruct (sequence (map (print nm) args)) as [ss|] eqn:Q; [|discriminate]. inversion Hp.
+      cbn [contains_tok existsb]. rewrite X_fl, (nh_list _ H ss Q). reflexivity.
+    - destruct (sequence (map (print nm) l)) as [ss|] eqn:Q; [|discriminate]. unfold nary in Hp.
+      destruct ss as [|a [|b r]]; try discriminate Hp. inversion Hp. pose proof (nh_list _ H _ Q) as N. cbn [contains_tok existsb] in *. rewrite N. reflexivity.
+    - destruct (sequence (map (print nm) l)) as [ss|] eqn:Q; [|discriminate]. unfold nary in Hp.
+      destruct ss as [|a [|b r]]; try discriminate Hp. inversion Hp. pose proof (nh_list _ H _ Q) as N. cbn [contains_tok existsb] in *. rewrite N. reflexivity.
+    - destruct (sequence (map (print nm) l)) as [ss|] eqn:Q; [|discriminate]. unfold chain in Hp.
+      destruct ss as [|a [|b r]]; try discriminate Hp. inversion Hp. pose proof (nh_list _ H _ Q) as N. cbn [existsb] in N.
+      apply orb_false_iff in N as [Na N]. apply (nh_chain "+" eq_refl (b :: r) a Na N).
+    - destruct (sequence (map (print nm) l)) as [ss|] eqn:Q; [|discriminate]. unfold chain in Hp.
+      destruct ss as [|a [|b r]]; try discriminate Hp. inversion Hp. pose proof (nh_list _ H _ Q) as N. cbn [existsb] in N.
+      apply orb_false_iff in N as [Na N]. apply (nh_chain "*" eq_refl (b :: r) a Na N).
+  Qed.
+End NoHash.
+
+Theorem effects_roundtrip_full (simp : expr -> expr) (isb : N -> bool) (nm : naming) (E : env) :
+  (forall f, PddlExpr.e_fl E (nm_fl nm f) = Some f) -> (forall f, is_kw (nm_fl nm f) = false) ->
+  (forall o, e_obj E (nm_obj nm o) = Some o) -> (forall o, PddlExpr.e_fl E (nm_obj nm o) = None) ->
+  (forall o, starts_q (nm_obj nm o) = false) -> (forall p, e_par E (nm_par nm p) = Some p) ->
+  (forall v, e_var E (nm_var nm v) = Some v) -> (forall p v, nm_par nm p <> nm_var nm v) ->
+  (forall t, e_ty E (nm_ty nm t) = Some t) -> (forall t, starts_q (nm_ty nm t) = false) ->
+  (forall s q, parse_number s = Some q -> PddlExpr.e_fl E s = None /\ e_obj E s = None) ->
+  (forall f, is_eff_kw (nm_fl nm f) = false) ->
+  (forall f, (nm_fl nm f =? "#t") = false) -> (forall o, (nm_obj nm o =? "#t") = false) ->
+  (forall t, (nm_ty nm t =? "#t") = false) ->
+  forall (rewrite : bool) (effs : list effect),
+    forallb (pddl_eff_ok simp isb) effs = true ->
+    exists s, print_effects simp nm rewrite effs = Some s /\ parse_effects simp E isb s = Some (norm_effs effs).
+Proof.
+  intros H1 H2 H3 H4 H5 H6 H7 H8 H9 H10 H11 HK X1 X2 X3 rw effs Hok.
+  apply (effects_roundtrip simp isb nm E H1 H2 H3 H4 H5 H6 H7 H8 H9 H10 H11 HK (print_no_hash nm X1 X2 X3)).
+  apply Forall_forall. intros e He. rewrite forallb_forall in Hok. apply Hok. exact He.
+Qed.
+
+Definition ex_effects_roundtrip (simp : expr -> expr) (isb : N -> bool) :=
+  effects_roundtrip_full simp isb ex_nm ex_env (pref_ok "x") (fun f => eq_refl) (pref_ok "b") (fun o => eq_refl) (fun o => eq_refl)
+    (pref_ok "p") (pref_ok "v") (fun p v (H : pref_nm "p" p = pref_nm "v" v) => ltac:(discriminate H))
+    (pref_ok "t") (fun t => eq_refl) ex_num (fun f => eq_refl) (fun f => eq_refl) (fun o => eq_refl) (fun t => eq_refl).
+
+(* ================================================================== the successor state depends on the fired assignments
+   only as a multiset (Planning/Sem.v: per ground fluent, [combine] of the assigned values and of the deltas) *)
+Section SameSuccessor.
+  Lemma filter_perm {A} (p : A -> bool) l l' : Permutation l l' -> Permutation (filter p l) (filter p l').
+  Proof.
+    induction 1 as [|x l l' HP IH|x y l|l l' l'' _ IH1 _ IH2]; cbn [filter].
+    - apply Permutation_refl.
+    - destruct (p x); [apply perm_skip|]; exact IH.
+    - destruct (p x), (p y); try apply Permutation_refl. apply perm_swap.
+    - eapply Permutation_trans; eauto.
+  Qed.
+
+  Lemma existsb_perm {A} (p : A -> bool) l l' : Permutation l l' -> existsb p l = existsb p l'.
+  Proof.
+    induction 1 as [|x l l' HP IH|x y l|l l' l'' _ IH1 _ IH2]; cbn [existsb]; try congruence.
+    destruct (p x), (p y); reflexivity.
+  Qed.
+  Lemma forallb_perm {A} (p : A -> bool) l l' : Permutation l l' -> forallb p l = forallb p l'.
+  Proof.
+    induction 1 as [|x l l' HP IH|x y l|l l' l'' _ IH1 _ IH2]; cbn [forallb]; try congruence.
+    destruct (p x), (p y); reflexivity.
+  Qed.
+
+  Lemma sum_perm D D' : Permutation D D' -> forall c, sum_deltas c D = sum_deltas c D'.
+  Proof.
+    induction 1 as [|x l l' HP IH|x y l|l l' l'' _ IH1 _ IH2]; intro c; cbn [sum_deltas].
+    - reflexivity.
+    - destruct x; [apply IH|reflexivity].
+    - destruct x as [x|], y as [y|]; try reflexivity. f_equal. ring.
+    - rewrite IH1. apply IH2.
+  Qed.
+
+  Lemma alleq_perm (A A' : list value) a r a' r' : A = a :: r -> A' = a' :: r' -> Permutation A A' ->
+    (if forallb (value_eqb a) r then CVal a else CFail) = (if forallb (value_eqb a') r' then CVal a' else CFail).
+  Proof.
+    intros EA EA' HP.
+    assert (forall (B B' : list value) b s b' s', B = b :: s -> B' = b' :: s' -> Permutation B B' ->
+            forallb (value_eqb b) s = true -> forallb (value_eqb b') s' = true /\ b' = b) as K.
+    { intros B B' b s b' s' EB EB' HPB Hall. rewrite forallb_forall in Hall.
+      assert (forall x, In x B -> x = b) as All.
+      { intros x Hx. rewrite EB in Hx. destruct Hx as [<-|Hx]; [reflexivity|]. apply Hall in Hx. apply value_eqb_eq in Hx. congruence. }
+      assert (b' = b) as Eb by (apply All; apply (Permutation_in _ (Permutation_sym HPB)); rewrite EB'; left; reflexivity).
+      split; [|exact Eb]. apply forallb_forall. intros x Hx. apply value_eqb_eq. rewrite Eb. symmetry. apply All.
+      apply (Permutation_in _ (Permutation_sym HPB)). rewrite EB'. right. exact Hx. }
+    destruct (forallb (value_eqb a) r) eqn:H1.
+    - destruct (K A A' a r a' r' EA EA' HP H1) as [H2 ->]. rewrite H2. reflexivity.
+    - destruct (forallb (value_eqb a') r') eqn:H2; [|reflexivity].
+      destruct (K A' A a' r' a r EA' EA (Permutation_sym HP) H2) as [H3 _]. congruence.
+  Qed.
+
+  Lemma combine_perm isb old A A' D D' : Permutation A A' -> Permutation D D' ->
+    combine isb old A D = combine isb old A' D'.
+  Proof.
+    intros HA HD. unfold combine.
+    destruct A as [|a r]; [apply Permutation_nil in HA; subst A'|];
+      (destruct D as [|d ds]; [apply Permutation_nil in HD; subst D'|]).
+    - reflexivity.
+    - destruct D' as [|d' ds']; [apply Permutation_sym, Permutation_nil in HD; discriminate|].
+      destruct old as [[| c |]|]; try reflexivity. rewrite (sum_perm _ _ HD c). reflexivity.
+    - destruct A' as [|a' r']; [apply Permutation_sym, Permutation_nil in HA; discriminate|].
+      destruct isb; [rewrite (existsb_perm is_vtrue _ _ HA); reflexivity|].
+      apply (alleq_perm (a :: r) (a' :: r') a r a' r' eq_refl eq_refl HA).
+    - destruct A' as [|a' r']; [apply Permutation_sym, Permutation_nil in HA; discriminate|].
+      destruct D' as [|d' ds']; [apply Permutation_sym, Permutation_nil in HD; discriminate|]. reflexivity.
+  Qed.
+
+  Lemma spec_fluent_perm P s acts acts' k : Permutation acts acts' -> spec_fluent P s acts k = spec_fluent P s acts' k.
+  Proof.
+    intro HP. unfold spec_fluent, avals, deltas. apply combine_perm; apply Permutation_map, filter_perm, HP.
+  Qed.
+
+  Theorem same_successor P s acts acts' : Permutation acts acts' ->
+    spec_effects_ok P s acts = spec_effects_ok P s acts'
+    /\ forall f args, spec_succ P s acts f args = spec_succ P s acts' f args.
+  Proof.
+    intro HP. split.
+    - unfold spec_effects_ok. rewrite (forallb_perm _ _ _ HP). generalize acts' at 1 3. intro l.
+      induction l as [|a l IH]; cbn [forallb]; [reflexivity|].
+      rewrite (spec_fluent_perm P s acts acts' (ae_key a) HP), IH. reflexivity.
+    - intros f args. unfold spec_succ. rewrite (spec_fluent_perm P s acts acts' (f, args) HP). reflexivity.
+  Qed.
+End SameSuccessor.
+
+Theorem roundtrip_same_successor (simp : expr -> expr) (isb : N -> bool) (sc : bool) (I : interp) (P : problem) (s : state)
+  (effs : list effect) (acts : list aeff) :
+  Forall (fun e => pddl_eff_ok simp isb e = true) effs ->
+  fired sc I effs = Some acts ->
+  exists acts', fired sc I (norm_effs effs) = Some acts'
+                /\ spec_effects_ok P s acts' = spec_effects_ok P s acts
+                /\ forall f args, spec_succ P s acts' f args = spec_succ P s acts f args.
+Proof.
+  intros F H. destruct (norm_effs_fired simp isb sc I effs acts F H) as (acts' & A1 & A2).
+  exists acts'. split; [exact A1|]. destruct (same_successor P s acts acts' A2) as [B1 B2].
+  split; [symmetry; exact B1|]. intros f args. symmetry. apply B2.
+Qed.
